@@ -250,3 +250,197 @@ Proof.
   destruct (str_eqb l (K "sparse")); [reflexivity|].
   destruct (str_eqb l (K "dense")); reflexivity.
 Qed.
+
+(* ------------------------------------------------------------------ rows / columns *)
+Lemma valid_id_unfold : forall r, gen_valid_id r =
+  (v <- py_getitem r (K "id") ;; if py_truthy v then ROk None else ROk (Some [MSG_ID_EMPTY])).
+Proof. intro r. unfold gen_valid_id. destruct (py_getitem r (K "id")) as [v|c]; cbn [bind]; [|reflexivity].
+  destruct (py_truthy v); reflexivity. Qed.
+Lemma valid_metadata_unfold : forall r, gen_valid_metadata r =
+  (md <- py_getitem r (K "metadata") ;; if is_null md || is_obj md then ROk None else ROk (Some [MSG_MD])).
+Proof. intro r. unfold gen_valid_metadata. destruct (py_getitem r (K "metadata")) as [v|c]; cbn [bind]; [|reflexivity].
+  destruct (is_null v), (is_obj v); reflexivity. Qed.
+
+Lemma rec_key_code_id : rec_key_code (K "id") = 0.
+Proof. reflexivity. Qed.
+Lemma rec_key_code_metadata : rec_key_code (K "metadata") = 1.
+Proof. reflexivity. Qed.
+
+(* the two loops of one axis, with the list of required record keys as the source builds it *)
+Section Axis.
+  Variable axis : Z.
+  Variable inner : Z -> json -> methods -> result (option status).
+  Variable outer : methods -> Z -> list json -> list json -> result (option status).
+  Hypothesis inner_nil : forall idx r, inner idx r [] = ROk None.
+  Hypothesis inner_cons : forall idx r p rest, inner idx r (p :: rest) =
+    (t4 <- py_in (fst p) r ;;
+     if negb t4 then ROk (Some (Some [MSG_REC_MISSING; axis; idx; rec_key_code (fst p)]))
+     else res <- snd p r ;; if status_nonempty res then ROk (Some res) else inner idx r rest).
+  Hypothesis outer_nil : forall rk idx seen, outer rk idx seen [] = ROk None.
+  Hypothesis outer_cons : forall rk idx seen r rest, outer rk idx seen (r :: rest) =
+    (t5 <- inner idx r rk ;;
+     match t5 with
+     | Some s => ROk (Some s)
+     | None =>
+         t6 <- py_getitem r (K "id") ;;
+         t7 <- py_in_set t6 seen ;;
+         if t7 then ROk (Some (Some [MSG_DUP; axis; idx]))
+         else t8 <- py_getitem r (K "id") ;; seen' <- py_set_add t8 seen ;; outer rk (idx + 1) seen' rest
+     end).
+
+  Lemma axis_loop_bridge : forall l idx seen,
+    outer [(K "id", gen_valid_id); (K "metadata", gen_valid_metadata)] idx seen l
+    = (s <- axis_loop axis idx l seen ;; ROk (lift_status s)).
+  Proof.
+    induction l as [|r t IH]; intros idx seen; [now rewrite outer_nil|].
+    rewrite outer_cons. rewrite !inner_cons, inner_nil. cbn [fst snd axis_loop].
+    rewrite valid_id_unfold, valid_metadata_unfold, rec_key_code_id, rec_key_code_metadata.
+    destruct (py_in (K "id") r) as [b1|c]; cbn [bind]; [|reflexivity].
+    destruct b1; cbn [negb bind]; [|reflexivity].
+    destruct (py_getitem r (K "id")) as [idv|c]; cbn [bind]; [|reflexivity].
+    destruct (py_truthy idv); cbn [negb bind status_nonempty]; [|reflexivity].
+    destruct (py_in (K "metadata") r) as [b2|c]; cbn [bind]; [|reflexivity].
+    destruct b2; cbn [negb bind]; [|reflexivity].
+    destruct (py_getitem r (K "metadata")) as [md|c]; cbn [bind]; [|reflexivity].
+    destruct (is_null md || is_obj md); cbn [negb bind status_nonempty]; [|reflexivity].
+    unfold py_in_set, py_set_add.
+    destruct (py_hashable idv); cbn [negb bind]; [|reflexivity].
+    destruct (existsb (py_eq idv) seen); cbn [bind]; [reflexivity|].
+    apply IH.
+  Qed.
+End Axis.
+
+Lemma rows_loop_bridge : forall l idx seen,
+  gen_valid_rows_loop1 [(K "id", gen_valid_id); (K "metadata", gen_valid_metadata)] idx seen l
+  = (s <- axis_loop 0 idx l seen ;; ROk (lift_status s)).
+Proof.
+  apply (axis_loop_bridge 0 gen_valid_rows_loop2 gen_valid_rows_loop1); intros; reflexivity.
+Qed.
+Lemma columns_loop_bridge : forall l idx seen,
+  gen_valid_columns_loop1 [(K "id", gen_valid_id); (K "metadata", gen_valid_metadata)] idx seen l
+  = (s <- axis_loop 1 idx l seen ;; ROk (lift_status s)).
+Proof.
+  apply (axis_loop_bridge 1 gen_valid_columns_loop2 gen_valid_columns_loop1); intros; reflexivity.
+Qed.
+
+Lemma valid_rows_bridge : forall j, gen_valid_rows j = valid_rows j.
+Proof.
+  intro j. unfold gen_valid_rows, valid_rows, valid_axis. cbv zeta.
+  destruct (py_get j (K "type")) as [ty|c]; cbn [bind]; [|reflexivity].
+  change (K "") with (@nil Z).
+  destruct (py_lower (if is_null ty then JStr [] else ty)) as [lw|c]; cbn [bind]; [|reflexivity].
+  destruct (py_getitem j (K "rows")) as [rs|c]; cbn [bind]; [|reflexivity].
+  destruct rs; try reflexivity. cbn [is_arr negb py_iter bind].
+  rewrite rows_loop_bridge.
+  destruct (axis_loop 0 0 l []) as [s|c]; cbn [bind]; [|reflexivity].
+  destruct s; reflexivity.
+Qed.
+Lemma valid_columns_bridge : forall j, gen_valid_columns j = valid_columns j.
+Proof.
+  intro j. unfold gen_valid_columns, valid_columns, valid_axis. cbv zeta.
+  destruct (py_get j (K "type")) as [ty|c]; cbn [bind]; [|reflexivity].
+  change (K "") with (@nil Z).
+  destruct (py_lower (if is_null ty then JStr [] else ty)) as [lw|c]; cbn [bind]; [|reflexivity].
+  destruct (py_getitem j (K "columns")) as [rs|c]; cbn [bind]; [|reflexivity].
+  destruct rs; try reflexivity. cbn [is_arr negb py_iter bind].
+  rewrite columns_loop_bridge.
+  destruct (axis_loop 1 0 l []) as [s|c]; cbn [bind]; [|reflexivity].
+  destruct s; reflexivity.
+Qed.
+
+(* ------------------------------------------------------------------ _validate_json *)
+Definition is_nil {A} (l : list A) : bool := match l with [] => true | _ => false end.
+
+(* two lists of (key, validator) agree: same keys, validators equal on every document *)
+Definition same_methods (l l' : methods) : Prop :=
+  Forall2 (fun p q => fst p = fst q /\ forall j, snd p j = snd q j) l l'.
+
+Lemma required_loop_bridge : forall j l l', same_methods l l' -> forall idx vt lines,
+  (forall i p, nth_error l i = Some p -> key_index (fst p) = idx + Z.of_nat i) ->
+  gen_validate_json_loop1 j vt lines l
+  = (rest <- run_required j l' idx ;; ROk (vt && is_nil rest, lines ++ rest)).
+Proof.
+  intros j l l' H. induction H as [|p q l l' [Hk Hm] Hrest IH]; intros idx vt lines Hidx.
+  - cbn [gen_validate_json_loop1 run_required bind is_nil]. now rewrite andb_true_r, app_nil_r.
+  - cbn [gen_validate_json_loop1 run_required]. destruct q as [k m]. cbn [fst snd] in *.
+    assert (Hidx' : forall i p0, nth_error l i = Some p0 -> key_index (fst p0) = idx + 1 + Z.of_nat i).
+    { intros i p0 Hn. rewrite (Hidx (S i) p0 Hn). lia. }
+    assert (Hk0 : key_index (fst p) = idx) by (rewrite (Hidx 0%nat p eq_refl); simpl; lia).
+    rewrite Hk in *. rewrite Hm.
+    destruct (py_in k j) as [b|c]; cbn [bind]; [|reflexivity].
+    destruct b; cbn [negb].
+    + destruct (m j) as [s|c]; cbn [bind]; [|reflexivity].
+      destruct s as [x|]; cbn [status_nonempty status_line].
+      * rewrite (IH (idx + 1) false (lines ++ [x]) Hidx').
+        destruct (run_required j l' (idx + 1)) as [rest|c]; cbn [bind is_nil]; [|reflexivity].
+        now rewrite andb_false_r, <- app_assoc.
+      * rewrite (IH (idx + 1) vt lines Hidx').
+        destruct (run_required j l' (idx + 1)) as [rest|c]; reflexivity.
+    + rewrite Hk0. rewrite (IH (idx + 1) false (lines ++ [[MSG_MISSING; idx]]) Hidx').
+      destruct (run_required j l' (idx + 1)) as [rest|c]; cbn [bind is_nil]; [|reflexivity].
+      now rewrite andb_false_r, <- app_assoc.
+Qed.
+
+Lemma count_check_bridge : forall j key pos m,
+  (t3 <- py_in key j ;;
+   r_and (ROk t3) (t4 <- py_getitem j key ;; t5 <- py_len t4 ;; t6 <- py_getitem j (K "shape") ;;
+                   t7 <- py_index t6 pos ;; ROk (py_ne_nat t5 t7)))
+  = (a <- count_check j key pos m ;; ROk (negb (is_nil a))).
+Proof.
+  intros j key pos m. unfold count_check, r_and.
+  destruct (py_in key j) as [b|c]; cbn [bind]; [|reflexivity].
+  destruct b; cbn [bind is_nil negb]; [|reflexivity].
+  destruct (py_getitem j key) as [rs|c]; cbn [bind]; [|reflexivity].
+  destruct (py_len rs) as [n|c]; cbn [bind]; [|reflexivity].
+  destruct (py_getitem j (K "shape")) as [sh|c]; cbn [bind]; [|reflexivity].
+  destruct (py_index sh pos) as [s|c]; cbn [bind]; [|reflexivity].
+  destruct (py_ne_nat n s); reflexivity.
+Qed.
+
+Lemma is_nil_app : forall (A : Type) (a b : list A), is_nil (a ++ b) = is_nil a && is_nil b.
+Proof. intros A a b. destruct a; reflexivity. Qed.
+
+Ltac bstep' :=
+  match goal with
+  | |- context [bind (ROk _) _] => cbn [bind]
+  | |- context [bind (RErr _) _] => cbn [bind]
+  | |- context [if ?b then _ else _] => is_var b; destruct b
+  | |- context [bind (py_in ?a ?b) _] => destruct (py_in a b) as [[|]|]
+  | |- context [bind (py_getitem ?a ?b) _] => destruct (py_getitem a b)
+  | |- context [bind (py_len ?a) _] => destruct (py_len a)
+  | |- context [bind (py_index ?a ?b) _] => destruct (py_index a b)
+  | |- context [if py_ne_nat ?a ?b then _ else _] => destruct (py_ne_nat a b)
+  end; cbv beta iota zeta.
+Ltac finish_report :=
+  rewrite ?is_nil_app, ?app_nil_r, <- ?app_assoc; cbn [is_nil app andb];
+  rewrite ?andb_false_r, ?andb_true_r; reflexivity.
+
+(* the validator's answer: valid_table is True exactly when no line was reported *)
+Lemma validate_json_bridge : forall j,
+  gen_validate_json j = (r <- validate_json_report j ;; ROk (is_nil r, r)).
+Proof.
+  intro j. unfold gen_validate_json, validate_json_report. cbv zeta.
+  rewrite (required_loop_bridge j _ REQUIRED) with (idx := 0).
+  - destruct (run_required j REQUIRED 0) as [a|c]; cbn [bind]; [|reflexivity].
+    cbn [andb app]. unfold shape_checks, count_check, r_and.
+    repeat (bstep'; try reflexivity; try discriminate; try finish_report).
+  - unfold same_methods, REQUIRED.
+    repeat (apply Forall2_cons; [split; [reflexivity|intro j0; cbn [snd]]|]); try apply Forall2_nil.
+    all: first [ apply valid_format_bridge | apply valid_format_url_bridge | apply valid_type_bridge
+               | apply valid_rows_bridge | apply valid_columns_bridge | apply valid_shape_bridge
+               | apply valid_data_bridge | apply valid_matrix_type_bridge
+               | apply valid_matrix_element_type_bridge | apply valid_generated_by_bridge
+               | apply valid_datetime_bridge | reflexivity ].
+  - intros i p Hn.
+    do 12 (destruct i as [|i]; [cbn in Hn; injection Hn as <-; reflexivity|]).
+    destruct i; discriminate.
+Qed.
+
+(* in the vocabulary of the theorems of C15 *)
+Lemma validate_json_verdict_bridge : forall j,
+  validate_json j = match gen_validate_json j with ROk (true, _) => true | _ => false end.
+Proof.
+  intro j. rewrite validate_json_bridge. unfold validate_json.
+  destruct (validate_json_report j) as [r|c]; cbn [bind]; [|reflexivity].
+  destruct r; reflexivity.
+Qed.
